@@ -73,6 +73,13 @@ Theorem C08_exchange_fixes_equilibrium (S : ScalOps) (L : ScalLaws S) (n : nat) 
 Proof. exact (x_fibre_equilibrium S L n MT MC ML eq i k). Qed.
 Print Assumptions C08_exchange_fixes_equilibrium.
 
+(* X on arrays (Model/Exchange.v x_apply, tied to X._apply by the exact C06 correspondence): an accepted application
+   returns the broadcast batch shape times the unchanged state count 2 ns + 1 (x 3 components) *)
+Theorem C08_exchange_keeps_state_count (S : ScalOps) (o : xop S) (s : smN S) (sh : list nat) (d : list S) :
+  x_apply S o s = XOk S sh d -> length d = prodl (sh ++ [s_ns S s; 3%nat]).
+Proof. exact (x_apply_state_count S o s sh d). Qed.
+Print Assumptions C08_exchange_keeps_state_count.
+
 (* the n-D integer shift rebuilds F- as the mirror conjugate of the relocated F+: F-(j) = conj F+(N-1-j) holds for
    every plan and every input, before pruning *)
 Theorem C08_nd_shift_fm_mirror (S : ScalOps) (p : plan) (amps : list (triple S)) (j : nat) : (j < length (pk p))%nat ->
